@@ -20,7 +20,7 @@
    enabled receive (no deadlock); every response-phase step decreases a measure, so under any scheduler the
    exports finish (no goroutine left behind). *)
 From Verif Require Import Base.ListX.
-Open Scope Z_scope.
+Local Open Scope Z_scope.
 
 Record caller := { rem : Z; cbuf : option Z; returned : bool; ctx_done : bool; future : Z }.
 Definition tup := (nat * Z)%type.                       (* waiter index, count *)
@@ -38,6 +38,11 @@ Inductive rev :=
 Definition rinit : rstate := {| ncallers := 0; callers := fun _ => {| rem := 0; cbuf := None; returned := true; ctx_done := false; future := 0 |}; queues := [] |}.
 
 Definition upd (f : nat -> caller) (k : nat) (v : caller) : nat -> caller := fun j => if Nat.eqb j k then v else f j.
+
+Lemma upd_same f k v : upd f k v k = v.
+Proof. unfold upd. rewrite Nat.eqb_refl. reflexivity. Qed.
+Lemma upd_other f k v j : j <> k -> upd f k v j = f j.
+Proof. intros H. unfold upd. destruct (Nat.eqb j k) eqn:E; [apply Nat.eqb_eq in E; contradiction|reflexivity]. Qed.
 
 Definition contrib (k : nat) (ts : list tup) : Z :=
   fold_right Z.add 0 (map (fun t : tup => if Nat.eqb (fst t) k then snd t else 0) ts).
@@ -196,6 +201,18 @@ Proof.
   inversion H; subst. rewrite (IH H3 Hk), (contrib_out_of_range k n q H2 Hk). lia.
 Qed.
 
+Lemma undeliv_nonneg k n qs :
+  Forall (fun q => Forall (fun t : tup => (fst t < n)%nat /\ 0 < snd t) q) qs -> 0 <= undeliv k qs.
+Proof.
+  unfold undeliv. induction qs as [|q tl IH]; intros H; cbn [map fold_right]; [lia|].
+  inversion H; subst. specialize (IH H3).
+  assert (0 <= contrib k q) by (apply contrib_nonneg; eapply Forall_impl; [|exact H2]; intros t [_ Ht]; exact Ht). lia.
+Qed.
+
+Lemma undeliv_pop k qs i w c tl :
+  nth_error qs i = Some ((w, c) :: tl) -> undeliv k (set_q i tl qs) = undeliv k qs - (if Nat.eqb w k then c else 0).
+Proof. intros H. rewrite (undeliv_set_q k qs i tl _ H), contrib_cons. lia. Qed.
+
 Lemma RInv_init : RInv rinit.
 Proof. split; [intros k Hk; cbn in Hk; lia|constructor]. Qed.
 
@@ -216,66 +233,44 @@ Proof.
     destruct (tuples_ok (ncallers st) ts && within_future st ts) eqn:E; [|discriminate]. injection H as <-.
     apply andb_true_iff in E. destruct E as [E1 E2]. pose proof (tuples_ok_spec _ _ E1) as Hts. split.
     + intros k Hk. cbn [ncallers] in Hk. specialize (Hc k Hk). unfold caller_ok in *. cbn [callers queues rem cbuf returned ctx_done future bufc].
-      destruct Hc as (H1 & H2 & H3 & H4 & H5). rewrite undeliv_app. unfold undeliv at 2 4 6. cbn [map fold_right].
+      destruct Hc as (H1 & H2 & H3 & H4 & H5). rewrite undeliv_app.
+      assert (Hu1 : undeliv k [ts] = contrib k ts) by (unfold undeliv; cbn [map fold_right]; lia). rewrite Hu1.
+      unfold bufc. cbn [cbuf].
       pose proof (within_future_spec st ts k E2 Hk) as Hw.
       assert (Hcn : 0 <= contrib k ts) by (apply contrib_nonneg; eapply Forall_impl; [|exact Hts]; intros t [_ Ht]; exact Ht).
       repeat split; try lia; try assumption.
-      * intros Hd. specialize (H4 Hd). unfold bufc in *. lia.
+      intros Hd. specialize (H4 Hd). unfold bufc in *. lia.
     + unfold queues_ok in *. cbn [queues ncallers]. apply Forall_app. split; [exact Hq|repeat constructor; exact Hts].
   - (* Deliver *)
     destruct (nth_error (queues st) i) as [[|[w c] tl]|] eqn:En; try discriminate.
     destruct (cbuf (callers st w)) eqn:Eb; [discriminate|]. injection H as <-.
     pose proof (nth_error_Forall _ _ _ _ Hq En) as Hq0. inversion Hq0 as [|? ? [Hw Hcpos] Htl]; subst. cbn [fst snd] in *.
-    split.
-    + intros k Hk. cbn [ncallers] in Hk. specialize (Hc k Hk). unfold caller_ok in *. cbn [callers queues]. unfold upd.
-      rewrite (undeliv_set_q k _ _ tl _ En), contrib_cons.
-      destruct (Nat.eqb k w) eqn:E.
-      * apply Nat.eqb_eq in E. subst k. rewrite Nat.eqb_refl. cbn [rem cbuf returned ctx_done future bufc].
-        destruct Hc as (H1 & H2 & H3 & H4 & H5). unfold bufc in H4. rewrite Eb in H4.
-        assert (0 <= contrib w tl) by (apply contrib_nonneg; eapply Forall_impl; [|exact Htl]; intros t [_ Ht]; exact Ht).
-        rewrite (undeliv_set_q w _ _ tl _ En), contrib_cons, Nat.eqb_refl in *.
-        repeat split; try lia.
-        -- pose proof (undeliv_set_q w _ i tl _ En) as Hu. rewrite contrib_cons, Nat.eqb_refl in Hu.
-           assert (0 <= undeliv w (set_q i tl (queues st))).
-           { unfold undeliv. clear -Hq Htl En. revert i En. induction (queues st) as [|a l IH]; intros i En; destruct i; cbn in En; try discriminate.
-             - injection En as ->. cbn [set_q map fold_right]. inversion Hq; subst.
-               assert (0 <= contrib w tl) by (apply contrib_nonneg; eapply Forall_impl; [|exact Htl]; intros t [_ Ht]; exact Ht).
-               assert (0 <= fold_right Z.add 0 (map (contrib w) l)).
-               { clear -H2. induction l as [|b l IHl]; cbn; [lia|]. inversion H2; subst. specialize (IHl H3).
-                 assert (0 <= contrib w b) by (apply contrib_nonneg; eapply Forall_impl; [|exact H1]; intros t [_ Ht]; exact Ht). lia. }
-               lia.
-             - cbn [set_q map fold_right]. inversion Hq; subst. specialize (IH H2 i En).
-               assert (0 <= contrib w a) by (apply contrib_nonneg; eapply Forall_impl; [|exact H1]; intros t [_ Ht]; exact Ht). lia. }
-           lia.
-        -- intros x Hx. injection Hx as <-. exact Hcpos.
-        -- intros Hd. specialize (H4 Hd). lia.
-        -- intros Hr Hd. specialize (H5 Hr Hd). specialize (H4 Hd). lia.
-      * assert (Ewk : Nat.eqb w k = false) by (apply Nat.eqb_neq; apply Nat.eqb_neq in E; congruence).
-        rewrite Ewk. replace (undeliv k (queues st) - (0 + contrib k tl) + contrib k tl) with (undeliv k (queues st)) by lia. exact Hc.
-    + unfold queues_ok in *. cbn [queues ncallers]. apply queues_ok_set_q; assumption.
+    assert (Hq1 : Forall (fun q => Forall (fun t : tup => (fst t < ncallers st)%nat /\ 0 < snd t) q) (set_q i tl (queues st)))
+      by (apply queues_ok_set_q; assumption).
+    split; [|exact Hq1].
+    intros k Hk. cbn [ncallers] in Hk. specialize (Hc k Hk). unfold caller_ok in *. cbn [callers queues]. unfold upd.
+    pose proof (undeliv_pop k _ _ _ _ _ En) as Hpop. pose proof (undeliv_nonneg k _ _ Hq1) as Hnn.
+    destruct Hc as (H1 & H2 & H3 & H4 & H5).
+    destruct (Nat.eqb k w) eqn:E.
+    + apply Nat.eqb_eq in E. subst k. rewrite Nat.eqb_refl in Hpop. cbn [rem cbuf returned ctx_done future bufc].
+      unfold bufc in H4. rewrite Eb in H4.
+      repeat split; try lia; try (intros x Hx; injection Hx as <-; exact Hcpos);
+        try (intros Hd; specialize (H4 Hd); lia); try (intros Hr Hd; specialize (H5 Hr Hd); specialize (H4 Hd); lia).
+    + assert (Ewk : Nat.eqb w k = false) by (apply Nat.eqb_neq; apply Nat.eqb_neq in E; congruence).
+      rewrite Ewk in Hpop. rewrite Hpop, Z.sub_0_r. repeat split; assumption.
   - (* Skip *)
     destruct (nth_error (queues st) i) as [[|[w c] tl]|] eqn:En; try discriminate.
     destruct (ctx_done (callers st w)) eqn:Ed; [|discriminate]. injection H as <-.
     pose proof (nth_error_Forall _ _ _ _ Hq En) as Hq0. inversion Hq0 as [|? ? [Hw Hcpos] Htl]; subst. cbn [fst snd] in *.
-    split.
-    + intros k Hk. cbn [ncallers] in Hk. specialize (Hc k Hk). unfold caller_ok in *. cbn [callers queues].
-      rewrite (undeliv_set_q k _ _ tl _ En), contrib_cons.
-      destruct (Nat.eqb w k) eqn:E.
-      * apply Nat.eqb_eq in E. subst k. destruct Hc as (H1 & H2 & H3 & H4 & H5).
-        assert (Hge : 0 <= undeliv w (queues st) - (c + contrib w tl) + contrib w tl).
-        { pose proof (undeliv_set_q w _ i tl _ En) as Hu. rewrite contrib_cons, Nat.eqb_refl in Hu. rewrite <- Hu.
-          unfold undeliv. clear -Hq Htl En. revert i En. induction (queues st) as [|a l IH]; intros i En; destruct i; cbn in En; try discriminate.
-          - injection En as ->. cbn [set_q map fold_right]. inversion Hq; subst.
-            assert (0 <= contrib w tl) by (apply contrib_nonneg; eapply Forall_impl; [|exact Htl]; intros t [_ Ht]; exact Ht).
-            assert (0 <= fold_right Z.add 0 (map (contrib w) l)).
-            { clear -H2. induction l as [|b l IHl]; cbn; [lia|]. inversion H2; subst. specialize (IHl H3).
-              assert (0 <= contrib w b) by (apply contrib_nonneg; eapply Forall_impl; [|exact H1]; intros t [_ Ht]; exact Ht). lia. }
-            lia.
-          - cbn [set_q map fold_right]. inversion Hq; subst. specialize (IH H2 i En).
-            assert (0 <= contrib w a) by (apply contrib_nonneg; eapply Forall_impl; [|exact H1]; intros t [_ Ht]; exact Ht). lia. }
-        repeat split; try assumption; try lia; intros; congruence.
-      * replace (undeliv k (queues st) - (0 + contrib k tl) + contrib k tl) with (undeliv k (queues st)) by lia. exact Hc.
-    + unfold queues_ok in *. cbn [queues ncallers]. apply queues_ok_set_q; assumption.
+    assert (Hq1 : Forall (fun q => Forall (fun t : tup => (fst t < ncallers st)%nat /\ 0 < snd t) q) (set_q i tl (queues st)))
+      by (apply queues_ok_set_q; assumption).
+    split; [|exact Hq1].
+    intros k Hk. cbn [ncallers] in Hk. specialize (Hc k Hk). unfold caller_ok in *. cbn [callers queues].
+    pose proof (undeliv_pop k _ _ _ _ _ En) as Hpop. pose proof (undeliv_nonneg k _ _ Hq1) as Hnn.
+    destruct Hc as (H1 & H2 & H3 & H4 & H5).
+    destruct (Nat.eqb w k) eqn:E.
+    + apply Nat.eqb_eq in E. subst k. repeat split; try assumption; try lia; intros; congruence.
+    + rewrite Hpop, Z.sub_0_r. repeat split; assumption.
   - (* Receive *)
     destruct (Nat.ltb w (ncallers st) && negb (returned (callers st w))) eqn:E; [|discriminate].
     destruct (cbuf (callers st w)) as [c|] eqn:Eb; [|discriminate]. injection H as <-.
@@ -284,9 +279,8 @@ Proof.
       destruct (Nat.eqb k w) eqn:E.
       * apply Nat.eqb_eq in E. subst k. cbn [rem cbuf returned ctx_done future bufc].
         destruct Hck as (H1 & H2 & H3 & H4 & H5). unfold bufc in H4. rewrite Eb in H4.
-        repeat split; try lia; try discriminate.
-        -- intros Hd. specialize (H4 Hd). lia.
-        -- intros Hr _. apply Z.eqb_eq in Hr. exact Hr.
+        repeat split; try lia; try discriminate;
+          try (intros Hd; specialize (H4 Hd); lia); try (intros Hr _; apply Z.eqb_eq in Hr; exact Hr).
       * exact Hck.
     + exact Hq.
   - (* Cancel *)
@@ -348,7 +342,7 @@ Proof.
   exfalso. destruct (Hc w Hw) as (H1 & H2 & H3 & H4 & H5). specialize (H4 Ed). specialize (H5 Er Ed).
   pose proof (undeliv_ge_contrib w _ _ _ _ Hq En) as Hu.
   assert (c <= contrib w ((w, c) :: tl)) by (apply contrib_head_le; eapply Forall_impl; [|exact Htl]; intros t [_ Ht]; exact Ht).
-  unfold bufc in H4. rewrite Eb in H4. specialize (H3 x eq_refl). lia.
+  unfold bufc in H4. rewrite Eb in H4. specialize (H3 x Eb). lia.
 Qed.
 
 (* ------------------------------------------------------------------ termination of the response phase *)
@@ -367,33 +361,23 @@ Proof.
   - cbn [set_q map fold_right]. specialize (IH i q q0 H). lia.
 Qed.
 
+Lemma filter_length_ext (f g : nat -> bool) l : (forall k, In k l -> g k = f k) -> length (filter g l) = length (filter f l).
+Proof.
+  induction l as [|x l IH]; intros H; cbn [filter]; [reflexivity|].
+  rewrite (H x (or_introl eq_refl)). specialize (IH (fun k Hk => H k (or_intror Hk))).
+  destruct (f x); cbn [length]; rewrite IH; reflexivity.
+Qed.
+
 Lemma filter_upd_count (f g : nat -> bool) n w :
   (w < n)%nat -> (forall k, k <> w -> g k = f k) ->
   (length (filter g (seq 0 n)) + (if f w then 1 else 0) = length (filter f (seq 0 n)) + (if g w then 1 else 0))%nat.
 Proof.
-  intros Hw Hs. generalize 0%nat as base. intros base.
-  assert (H : forall m base, (base <= w < base + m)%nat \/ (w < base \/ base + m <= w)%nat ->
-              ((base <= w < base + m)%nat -> (length (filter g (seq base m)) + (if f w then 1 else 0) = length (filter f (seq base m)) + (if g w then 1 else 0))%nat) /\
-              ((w < base \/ base + m <= w)%nat -> length (filter g (seq base m)) = length (filter f (seq base m)))).
-  { induction m as [|m IH]; intros b _.
-    - split; [lia|reflexivity].
-    - cbn [seq filter]. destruct (IH (S b) ltac:(lia)) as [IH1 IH2]. split.
-      + intros Hr. destruct (Nat.eq_dec b w) as [->|Hne].
-        * rewrite (IH2 ltac:(lia)). destruct (g w), (f w); cbn [length]; lia.
-        * rewrite (Hs b Hne). specialize (IH1 ltac:(lia)). destruct (f b); cbn [length]; lia.
-      + intros Hr. rewrite (Hs b ltac:(lia)). rewrite (IH2 ltac:(lia)). reflexivity. }
-  clear H. revert base. intros _.
-  assert (H : forall m b, (b <= w < b + m)%nat ->
-              (length (filter g (seq b m)) + (if f w then 1 else 0) = length (filter f (seq b m)) + (if g w then 1 else 0))%nat /\ True).
-  { intros m b Hr. split; [|exact I]. revert b Hr. induction m as [|m IH]; intros b Hr; [lia|].
-    cbn [seq filter]. destruct (Nat.eq_dec b w) as [->|Hne].
-    - assert (Hrest : length (filter g (seq (S w) m)) = length (filter f (seq (S w) m))).
-      { clear -Hs. generalize (S w) at 1 3 as b0. assert (forall m b0, (w < b0)%nat -> length (filter g (seq b0 m)) = length (filter f (seq b0 m))).
-        { induction m as [|m IHm]; intros b0 Hb; [reflexivity|]. cbn [seq filter]. rewrite (Hs b0 ltac:(lia)), (IHm (S b0) ltac:(lia)). reflexivity. }
-        intros b0. destruct (Nat.lt_ge_cases w b0); [apply H; assumption|]. revert H0. intros _. apply (H m (S w)). lia. }
-      rewrite Hrest. destruct (g w), (f w); cbn [length]; lia.
-    - rewrite (Hs b Hne). specialize (IH (S b) ltac:(lia)). destruct (f b); cbn [length]; lia. }
-  destruct (H n 0%nat ltac:(lia)) as [Hres _]. exact Hres.
+  intros Hw Hs.
+  assert (Hn : n = (w + S (n - S w))%nat) by lia. rewrite Hn, seq_app. cbn [seq plus].
+  rewrite !filter_app. cbn [filter]. rewrite !app_length.
+  rewrite (filter_length_ext f g (seq 0 w)) by (intros k Hk; apply Hs; apply in_seq in Hk; lia).
+  pose proof (filter_length_ext f g (seq (S w) (n - S w)) ltac:(intros k Hk; apply Hs; apply in_seq in Hk; lia)) as Hr.
+  destruct (g w), (f w); cbn [length]; lia.
 Qed.
 
 Lemma resp_step_decreases st e st1 :
@@ -409,8 +393,8 @@ Proof.
     pose proof (filter_upd_count (fun k => match cbuf (callers st k) with Some _ => true | None => false end)
                   (fun k => match cbuf (upd (callers st) w {| rem := rem (callers st w); cbuf := Some c; returned := returned (callers st w); ctx_done := ctx_done (callers st w); future := future (callers st w) |} k) with Some _ => true | None => false end)
                   (ncallers st) w Hw) as Hf.
-    rewrite Eb in Hf. unfold upd at 2 in Hf. rewrite Nat.eqb_refl in Hf. cbn [cbuf] in Hf.
-    specialize (Hf ltac:(intros k Hk; unfold upd; destruct (Nat.eqb k w) eqn:E; [apply Nat.eqb_eq in E; congruence|reflexivity])).
+    specialize (Hf ltac:(intros k Hk; cbn beta; rewrite (upd_other _ _ _ _ Hk); reflexivity)).
+    cbn beta in Hf. rewrite upd_same in Hf. cbn [cbuf] in Hf. rewrite Eb in Hf.
     lia.
   - (* Skip *)
     destruct (nth_error (queues st) i) as [[|[w c] tl]|] eqn:En; try discriminate.
@@ -425,8 +409,8 @@ Proof.
     pose proof (filter_upd_count (fun k => match cbuf (callers st k) with Some _ => true | None => false end)
                   (fun k => match cbuf (upd (callers st) w {| rem := rem (callers st w) - c; cbuf := None; returned := (rem (callers st w) - c =? 0); ctx_done := ctx_done (callers st w); future := future (callers st w) |} k) with Some _ => true | None => false end)
                   (ncallers st) w E1) as Hf.
-    rewrite Eb in Hf. unfold upd at 2 in Hf. rewrite Nat.eqb_refl in Hf. cbn [cbuf] in Hf.
-    specialize (Hf ltac:(intros k Hk; unfold upd; destruct (Nat.eqb k w) eqn:E; [apply Nat.eqb_eq in E; congruence|reflexivity])).
+    specialize (Hf ltac:(intros k Hk; cbn beta; rewrite (upd_other _ _ _ _ Hk); reflexivity)).
+    cbn beta in Hf. rewrite upd_same in Hf. cbn [cbuf] in Hf. rewrite Eb in Hf.
     lia.
 Qed.
 
@@ -457,23 +441,23 @@ Theorem responses_complete : forall n st, RInv st -> (measure st <= n)%nat ->
   exists evs st1, forallb resp_event evs = true /\ rrun st evs = Some st1 /\ all_answered st1 /\ RInv st1.
 Proof.
   induction n as [|n IH]; intros st HI Hm.
-  - destruct (all_answered_dec st) as [Ha|Hna]; [exists [], st; repeat split; assumption|].
+  - destruct (all_answered_dec st) as [Ha|Hna]; [exists [], st; split; [reflexivity|split; [reflexivity|split; assumption]]|].
     exfalso. destruct (not_answered_has_head st Hna) as (i & w & c & tl & Hn).
     unfold measure, todo in Hm. clear -Hm Hn. revert i Hn Hm. induction (queues st) as [|q l IHl]; intros i Hn Hm; destruct i; cbn in Hn; try discriminate.
     + injection Hn as ->. cbn in Hm. lia.
     + cbn [map fold_right] in Hm. apply (IHl i Hn). lia.
-  - destruct (all_answered_dec st) as [Ha|Hna]; [exists [], st; repeat split; assumption|].
+  - destruct (all_answered_dec st) as [Ha|Hna]; [exists [], st; split; [reflexivity|split; [reflexivity|split; assumption]]|].
     destruct (not_answered_has_head st Hna) as (i & w & c & tl & Hn).
     destruct (export_not_stuck st i w c tl HI Hn) as [[s1 Hs]|[[s1 Hs]|[s1 Hs]]].
     + pose proof (resp_step_decreases st (Deliver i) s1 HI eq_refl Hs) as Hd.
       destruct (IH s1 (rstep_inv _ _ _ HI Hs) ltac:(lia)) as (evs & st1 & H1 & H2 & H3 & H4).
-      exists (Deliver i :: evs), st1. cbn [forallb resp_event rrun]. rewrite Hs. repeat split; assumption.
+      exists (Deliver i :: evs), st1. cbn [forallb resp_event rrun]. rewrite Hs. split; [exact H1|split; [exact H2|split; assumption]].
     + pose proof (resp_step_decreases st (Skip i) s1 HI eq_refl Hs) as Hd.
       destruct (IH s1 (rstep_inv _ _ _ HI Hs) ltac:(lia)) as (evs & st1 & H1 & H2 & H3 & H4).
-      exists (Skip i :: evs), st1. cbn [forallb resp_event rrun]. rewrite Hs. repeat split; assumption.
+      exists (Skip i :: evs), st1. cbn [forallb resp_event rrun]. rewrite Hs. split; [exact H1|split; [exact H2|split; assumption]].
     + pose proof (resp_step_decreases st (Receive w) s1 HI eq_refl Hs) as Hd.
       destruct (IH s1 (rstep_inv _ _ _ HI Hs) ltac:(lia)) as (evs & st1 & H1 & H2 & H3 & H4).
-      exists (Receive w :: evs), st1. cbn [forallb resp_event rrun]. rewrite Hs. repeat split; assumption.
+      exists (Receive w :: evs), st1. cbn [forallb resp_event rrun]. rewrite Hs. split; [exact H1|split; [exact H2|split; assumption]].
 Qed.
 
 (* and no scheduler can make the response phase run for ever: any sequence of response steps is bounded *)
